@@ -431,4 +431,108 @@ theorem default_finite_64 (pre : List Nat) (bits p : Nat) (hp : p ≤ 40)
   · exact default_ge1_64 pre bits p hp hfin hge1
   · exact default_lt1_64 pre bits p hp (by omega) hnz
 
+/-! ### integer-valued doubles through the generic digit run (the form that is ported to floats) -/
+
+/-- the closed-form digit run of an integer-valued double whose digit estimate fits the precision: the integer
+itself, nothing dropped, nothing sticky -/
+theorem runSpec_default_int {f e P : Nat} (hpos : 1023 ≤ e) (he0 : e ≠ 0)
+    (hx : (e - 1023) * 30103 / 100000 + 1 ≤ P) (hfb : fracBits 52 1023 f e = 0) :
+    (runSpec 52 1023 f e P 0).2.1 = (e - 1023) * 30103 / 100000 + 1 ∧
+    (runSpec 52 1023 f e P 0).2.2.1 = 0 ∧ (runSpec 52 1023 f e P 0).2.2.2.1 = true ∧
+    (runSpec 52 1023 f e P 0).2.2.2.2 = false ∧ runDrop 52 1023 f e P 0 = 0 := by
+  have hfix : (decide ((0:Nat) = fmtSemiFixed) || decide ((0:Nat) = fmtFixed)) = false := by decide
+  have hest : ∀ j, estDigits 52 j (e - 1023) e = (e - 1023) * 30103 / 100000 + 1 := by
+    intro j; unfold estDigits; rw [if_neg he0]; simp
+  have hnx : ¬ (P < (e - 1023) * 30103 / 100000 + 1) := by omega
+  simp only [fracBits, hpos, if_true] at hfb
+  have hnb : (52 - findFirstBit (mant 52 f e) ≤ e - 1023) := by omega
+  have hj : ¬ (findFirstBit (mant 52 f e) < 52 + 0 - (e - 1023)) := by omega
+  simp only [runSpec, runDrop, hpos, if_true, decide_true, Bool.true_and, hfix, Bool.not_false, Bool.and_true,
+    hest, hnx, hnb, decide_false, Bool.or_false, Bool.false_eq_true, if_false, Bool.true_or, hj, Bool.and_false,
+    Nat.pow_zero, Nat.mod_one, ne_eq, not_true_eq_false, Bool.false_or]
+  exact ⟨trivial, trivial, trivial, trivial, trivial⟩
+
+/-- **Default format, integer-valued doubles whose digit estimate fits the precision** (so at most `P + 1`
+digits): the plain numeral, or `d.ddde+XX` after rounding when there is one digit too many -/
+theorem default_int_fit64 (pre : List Nat) (bits p : Nat) (hp : p ≤ 40)
+    (hfin : (bits / 2 ^ 52) % 2 ^ 11 ≠ 2 ^ 11 - 1) (hge1 : 1023 ≤ (bits / 2 ^ 52) % 2 ^ 11)
+    (hx : ((bits / 2 ^ 52) % 2 ^ 11 - 1023) * 30103 / 100000 + 1 ≤ (if p = 0 then 1 else p))
+    (hfb : fracBits 52 1023 (bits % 2 ^ 52) ((bits / 2 ^ 52) % 2 ^ 11) = 0) :
+    realToString f64 pre bits p 0 = .ok (pre ++ FmtSpec.format64 bits p .default) := by
+  have hnz : (bits / 2 ^ 52) % 2 ^ 11 ≠ 0 ∨ bits % 2 ^ 52 ≠ 0 := Or.inl (by omega)
+  have hfl : bits % 2 ^ 52 < 2 ^ 52 := Nat.mod_lt _ (by norm_num)
+  have hlt : (bits / 2 ^ 52) % 2 ^ 11 < 2 ^ 11 := Nat.mod_lt _ (by norm_num)
+  have hel : (bits / 2 ^ 52) % 2 ^ 11 ≤ 2 * 1023 := by omega
+  have hpp : (if (0:Nat) = fmtDefault ∧ p = 0 then 1 else p) = (if p = 0 then 1 else p) := by simp [fmtDefault]
+  generalize hP : (if p = 0 then 1 else p) = P at *
+  have hPpos : 0 < P := by rw [← hP]; split <;> omega
+  have hP40 : P ≤ 40 := by rw [← hP]; split <;> omega
+  obtain ⟨num, den, hden, hdec, hex⟩ := runSpec_exact_decode (M := 52) (X := 11) (by decide) (by decide) (by decide)
+    bits P 0 hfin hnz
+  have hB : (2:Nat) ^ (11 - 1) - 1 = 1023 := by norm_num
+  rw [hB] at hex
+  have hdec64 : FmtSpec.decode64 bits = .fin (decide (bits / 2 ^ 63 % 2 = 1)) num den := hdec
+  have hpow := decode64_ge_pow hdec64 hge1
+  have hdenle : den ≤ num := decode64_ge1 hdec64 hge1
+  obtain ⟨hdg, hfl0, hpos, hruf, hdrop⟩ := runSpec_default_int (f := bits % 2 ^ 52) (P := P) hge1 (by omega) hx hfb
+  have hb1344 := runSpec_lt shape64 (fmt := 0) hfl hel hnz hP40
+  generalize hpe : (bits / 2 ^ 52) % 2 ^ 11 - 1023 = pe at *
+  have hpe1130 : pe ≤ 1130 := by omega
+  obtain ⟨ht1, ht2⟩ := est_table pe hpe1130
+  generalize hr : runSpec 52 1023 (bits % 2 ^ 52) ((bits / 2 ^ 52) % 2 ^ 11) P 0 = r at *
+  obtain ⟨b, dg, fl, pos, ru⟩ := r
+  simp only at hdg hfl0 hpos hruf hex hb1344
+  subst hfl0; subst hpos; subst hruf
+  rw [hdrop] at hex
+  obtain ⟨hb, hru⟩ := hex
+  rw [Nat.pow_zero, Nat.mul_one, Nat.mul_one] at hb hru
+  have hrem : num % den = 0 := by
+    by_contra hcon
+    have := hru.mpr hcon; cases this
+  have hnum : num = b * den := by rw [hb]; exact (Nat.div_mul_cancel (Nat.dvd_of_mod_eq_zero hrem)).symm
+  have hn2 : 2 ^ pe ≤ b := by rw [hb, Nat.le_div_iff_mul_le hden]; exact hpow
+  have hnge : 10 ^ (pe * 30103 / 100000) ≤ b := le_trans ht1 hn2
+  have hLn : pe * 30103 / 100000 < (D b).length := D_length_gt hnge
+  have hbpos : 0 < b := lt_of_lt_of_le (Nat.pow_pos (by decide)) hnge
+  have hblen : (D b).length ≤ 1344 :=
+    D_length_le _ 1344 (by decide) (lt_of_lt_of_le hb1344 (Nat.pow_le_pow_left (by decide) 1344))
+  rw [realToString_finite64 pre bits p 0 hfin hnz, hpp, realFinite_reduce shape64 _ hfl hel hnz hP40, hr]
+  have hR : R b = Rl b := by simp [R, Rl]; omega
+  unfold layout
+  have e1 : ¬ ((0:Nat) = fmtSemiFixed) := by decide
+  have e2 : ¬ ((0:Nat) = fmtFixed) := by decide
+  simp only [e1, e2, if_false, hR]
+  rw [format64_finite bits p _ hdec64]
+  simp only []
+  have hsign : ∀ body : List Nat, (if bits / 2 ^ 63 % 2 = 1 then pre ++ [45] else pre) ++ body =
+      pre ++ FmtSpec.signed (decide (bits / 2 ^ 63 % 2 = 1)) body := by
+    intro body
+    by_cases hs : bits / 9223372036854775808 % 2 = 1 <;> simp [hs, FmtSpec.signed, FmtSpec.cMinus]
+  by_cases hLP : (D b).length ≤ P
+  · rw [formatDefault_integer _ (Rl b) P dg (by rw [Rl_length]; exact hLP), hsign]
+    refine congrArg (fun x => Except.ok (pre ++ FmtSpec.signed _ x)) ?_
+    rw [hnum, generalBody_int b hden hbpos p (by rw [hP]; exact hLP)]
+    simp [Rl]
+  · obtain ⟨T, z, pi, hfmt, hT0, hT10, hk, hpi, hpi2⟩ :=
+      formatDefault_round_int (if bits / 2 ^ 63 % 2 = 1 then pre ++ [45] else pre) (dg := dg) (p := P) false hbpos hPpos
+        (by omega) (by omega)
+    rw [hfmt, hsign]
+    refine congrArg (fun x => Except.ok (pre ++ FmtSpec.signed _ x)) ?_
+    have hle : keptUp b ((D b).length - P - 1) false ≤ 10 ^ P := by
+      cases hpi' : pi
+      · exact Nat.le_of_lt (hpi2 hpi')
+      · exact Nat.le_of_eq (hpi.mp hpi')
+    have hbody := generalBody_sci (p := p) hden hbpos (by rw [hP]; omega) hT0 hT10 (by rw [hP]; exact hk)
+      (by rw [hP]; exact hle)
+    rw [hnum, hbody, hP]
+    have hX : (D b).length + (if dg ≤ P then 0 else dg - (P + 1)) - (if pi = true then 0 else 1) =
+        (D b).length - 1 + (if keptUp b ((D b).length - P - 1) false = 10 ^ P then 1 else 0) := by
+      rw [if_pos (by omega)]
+      cases hpi' : pi
+      · have : ¬ (keptUp b ((D b).length - P - 1) false = 10 ^ P) := fun hc => by have := hpi.mpr hc; rw [hpi'] at this; cases this
+        simp [this]
+      · have : keptUp b ((D b).length - P - 1) false = 10 ^ P := hpi.mp hpi'
+        simp [this]; omega
+    rw [hX]
+
 end Qentem.Proofs.NumToStr
